@@ -70,6 +70,9 @@ def gen_cases(tier, seed):
         for rate in ("1kHz", "1MHz", "3.7GHz"):
             for st in ("none", "iso"):
                 yield {"kind": "dedisp", "cls": cls, "rate": rate, "start": st}
+    for cls in factory.CLASSES:
+        yield {"kind": "setters", "cls": cls, "rate": "1kHz", "start": "iso"}
+    yield {"kind": "setters", "cls": "BasebandSignal", "rate": "3.7GHz", "start": "none"}
     for cls, rate, st in b["bfs_cfg"]:
         yield {"kind": "bfs", "cls": cls, "rate": rate, "start": st, "L": b["bfs_L"], "depth": b["bfs_depth"]}
 
@@ -525,9 +528,60 @@ def case_bfs(case, res):
                 "states": len(seen)}, 1)
 
 
+def case_setters(case, res):
+    """Assignment histories on ONE object: derived time quantities must follow the object's CURRENT sample_rate/start_time."""
+    cls = case["cls"]
+    L = 9
+    z = factory.make_encoded(cls, L, nchan=3, rate_name=case["rate"], start_name=case["start"])
+    rates = [factory.rate(r) for r in ("1Hz", "3kHz", "third_MHz", "800MHz")]
+    starts = [factory.start("iso"), factory.start("halfday_plus"), None]
+    ops = [("read", None)] + [("rate", r) for r in rates[:3]] + [("start", t) for t in starts] + [("use", None)]
+    for seq in itertools.product(range(len(ops)), repeat=3):
+        obj = type(z).like(z)
+        names = []
+        try:
+            for i in seq:
+                kind, arg = ops[i]
+                names.append(kind if arg is None else f"{kind}={arg!r}"[:40])
+                if kind == "read":
+                    _ = (obj.dt, obj.time_length, obj.stop_time)
+                elif kind == "rate":
+                    obj.sample_rate = arg
+                elif kind == "start":
+                    obj.start_time = arg
+                elif kind == "use":
+                    _ = obj[2::2]
+                    if obj.dtype.kind in "fc":
+                        _ = pb.snippet(obj, 1.5, 3)
+                res.transitions += 1
+            # the object as it is now is a new "base": everything derived must agree with it
+            base = Base(obj)
+            led = Ledger(0, 1, L, 1, True)
+            ok = check_state(res, base, obj, led, case, {"history": names}, "assignment history")
+            if ok:
+                for op in (["slice", 2, None, 2], ["slice", -4, None, None], ["fast_len"]):
+                    step_op(res, base, obj, led, op, case, names, "assignment history")
+                if obj.dtype.kind in "fc":
+                    out = pb.snippet(obj, 2.5, 4)
+                    res.transitions += 1
+                    if base.T0 is not None:
+                        d = T(out.start_time) - base.T0 - F(5, 2) / base.sr / 86400
+                        if abs(d) > 6 * ULP_T + F(1, 10 ** 6) / base.sr / 86400:
+                            res.violation("assignment history|snippet start_time", f"after {names}: snippet(z, 2.5, 4) starts "
+                                          f"{float((T(out.start_time) - base.T0) * 86400 * base.sr):.6g} samples after z.start_time", case,
+                                          {"history": names})
+                check_contains(res, obj, case, {"history": names}, "assignment history contains")
+        except Exception as e:
+            res.violation("assignment history|raised", f"{names}: {type(e).__name__}: {e}", case, {"history": names})
+        res.traces += 1
+        res.state((cls, case["rate"], case["start"], "set", seq))
+    res.hits["assignment histories"] += 1
+    res.sample({"cls": cls, "assignment history": ["read", "rate=3 kHz", "use"]}, 1)
+
+
 def check_case(case):
     res = report.Result()
-    {"slices": case_slices, "crops": case_crops, "dedisp": case_dedisp, "bfs": case_bfs}[case["kind"]](case, res)
+    {"slices": case_slices, "setters": case_setters, "crops": case_crops, "dedisp": case_dedisp, "bfs": case_bfs}[case["kind"]](case, res)
     return res
 
 
@@ -537,7 +591,7 @@ def main(argv=None):
         required_hits=["negative start bound", "out-of-range bound clamped", "stepped slice", "empty result",
                        "no start time", "contains inside", "contains outside", "shift crop exceeds length",
                        "mixed-sign shift crop", "block shorter than sweep", "incoherent traced",
-                       "incoherent front crop", "bfs: state reached again by another path"],
+                       "incoherent front crop", "bfs: state reached again by another path", "assignment histories"],
         assumptions=["astropy Time two-double (jd1, jd2) is the representation of absolute time; budget 2 ulp_T (2^-52 day) "
                      "per operation plus 8*2^-53 relative on the elapsed offset",
                      "FFT-based crops are checked here for their ledger only (values in C03/C05)",
